@@ -285,6 +285,10 @@ def shards(tier, seed):
     for blk in _chunks(range(len(cov)), 8 if not thorough else 24):
         out.append({'kind': 'partials', 'cov': [blk[0], blk[-1] + 1]})
     out.append({'kind': 'partials_common'})
+    # weighted mean of a SELECTION of a stack that carries per-entry weights as a 2-D rdm descriptor
+    for ci in range(len(SEL_MASKS)):
+        for src in SEL_SOURCES:
+            out.append({'kind': 'meansel', 'cfg': ci, 'source': src})
     return out
 
 
@@ -309,6 +313,38 @@ def seq_stack_masks(n_rdm):
     per-RDM mask from a small menu (2 RDMs: 4 masks -> 16 stacks; 3 RDMs: 3 masks -> 27 stacks)"""
     menu = [[], [0], [5], [0, 1]] if n_rdm == 2 else [[], [0], [0, 1]]
     return [list(c) for c in itertools.product(menu, repeat=n_rdm)]
+
+
+# stacks of 3 RDMs (n_cond = 4) for the selection family: no gaps; gaps differing between RDMs; one
+# pair missing in every RDM; heavy gaps
+SEL_MASKS = [[[], [], []], [[0], [], [0, 1]], [[0], [0, 5], [0]], [[0, 1], [5], [2, 3, 4]]]
+# where the per-entry weights descriptor comes from: 2-D ndarray given to the constructor / assigned to
+# rdm_descriptors afterwards / left behind by rescale() as 'rescalingWeights' (3 methods) / list of rows;
+# '1d' = 1-D ndarray of per-RDM weights (control: must keep working as per-RDM weights)
+SEL_SOURCES = ['ctor', 'set', 'rescale-evidence', 'rescale-setsize', 'rescale-simple', 'rows', '1d']
+SEL_GROUPS = ['a', 'b', 'a']
+
+
+def sel_menu():
+    """every selection form: (operation, descriptor it goes by, argument)"""
+    out = [('none', None, None)]
+    vecs = [list(v) for k in (1, 2, 3) for v in itertools.product(range(3), repeat=k)]     # 39, repeats included
+    for v in vecs:
+        out.append(('subsample', 'index', v))
+        out.append(('getitem', None, v))
+        out.append(('getitem-ndarray', None, v))
+        if len(set(v)) == len(v):
+            out.append(('subset', 'index', v))       # every subset in every order of naming it
+    for i in range(3):
+        out += [('subset', 'index', i), ('subsample', 'index', i), ('getitem', None, i)]
+    out.append(('iterate', None, None))
+    for g in ('a', 'b', ['a'], ['b', 'a'], ['a', 'b'], ['a', 'a']):
+        out.append(('subset', 'grp', g))
+        out.append(('subsample', 'grp', g))
+    # two selections in a row
+    out += [('subset+subsample', 'index', [[0, 2], [2, 0, 2]]), ('subsample+subset', 'index', [[2, 0, 2], [2]]),
+            ('subsample+getitem', 'index', [[1, 1, 0], [0, 2]]), ('getitem+subsample', 'index', [[2, 1], [1, 0, 1]])]
+    return out
 
 
 def coverings(tier):
@@ -511,6 +547,10 @@ def run_shard(shard, ctx):
                         for meth in RESCALE:
                             for v in RESCALE_VALS[order]:
                                 run_case(dict(base, op='rescale', rescale=meth, vals=v), ctx)
+    elif kind == 'meansel':
+        for op, by, arg in sel_menu():
+            run_case({'kind': 'meansel', 'masks': SEL_MASKS[shard['cfg']], 'source': shard['source'],
+                      'op': op, 'by': by, 'arg': arg}, ctx)
     elif kind == 'partials_common':
         for sub in SUBSETS4:
             if len(sub) < 3:
@@ -612,7 +652,7 @@ def _mask_class(*masks):
 def run_case(case, ctx):
     kind = case['kind']
     if kind in ('common', 'differ', 'within', 'boot', 'bootdiffer', 'pool', 'nc', 'cvnc', 'fit', 'fitboot',
-                'fitdiffer', 'mean', 'partials', 'partials_common', 'meanseq', 'cmpseq', 'poolseq', 'fitseq'):
+                'fitdiffer', 'mean', 'partials', 'partials_common', 'meanseq', 'cmpseq', 'poolseq', 'fitseq', 'meansel'):
         return globals()['_case_' + kind](case, ctx)
     # a shard descriptor handed to --replay (escaped exception): run the whole shard
     return run_shard(case.get('shard', case), ctx)
@@ -1177,6 +1217,109 @@ def _case_fitseq(case, ctx):
                 got = fit_regress(model, do, method=method, sigma_k=sigma)
             ctx.case(sub)
             _judge_theta(ctx, sub, tag, got, want, TOL_FIT_CG if method in WHITE else 1e-7)
+
+
+_SEL_CACHE = {}
+
+
+def _sel_stack(ctx, masks, source):
+    """-> (RDMs stack, descriptor name, reference dissimilarities, reference weights (rows or per-RDM))"""
+    from rsatoolbox.rdm import RDMs
+    from rsatoolbox.rdm.combine import rescale
+    L = 6
+    D = _fill(ctx.seed, (4, 141), 3, L, 'pos')
+    for r, m in enumerate(masks):
+        if len(m):
+            D[r, list(m)] = np.nan
+    g = rng_for(ctx.seed, 'c13selw')
+    W = np.round(g.uniform(0.5, 3.0, size=(3, L)), 3)
+    w1 = np.round(g.uniform(0.5, 3.0, size=3), 3)
+    base = {'grp': list(SEL_GROUPS)}
+    if source == 'ctor':
+        return RDMs(D.copy(), rdm_descriptors=dict(base, w=W.copy())), 'w', D, W
+    if source == 'set':
+        r = RDMs(D.copy(), rdm_descriptors=base)
+        r.rdm_descriptors['w'] = W.copy()
+        return r, 'w', D, W
+    if source == 'rows':
+        return RDMs(D.copy(), rdm_descriptors=dict(base, w=[row.copy() for row in W])), 'w', D, W
+    if source == '1d':
+        return RDMs(D.copy(), rdm_descriptors=dict(base, w=w1.copy())), 'w', D, w1
+    if source.startswith('rescale-'):
+        key = (ctx.seed, repr(masks), source)
+        if key not in _SEL_CACHE:
+            r = rescale(RDMs(D.copy(), rdm_descriptors=base), method=source.split('-')[1])
+            _SEL_CACHE[key] = (r.dissimilarities.copy(),
+                               np.array(r.rdm_descriptors['rescalingWeights'], dtype=float))
+        d0, w0 = _SEL_CACHE[key]
+        # the stack as rescale() leaves it: 'rescalingWeights' held as 2-D ndarray
+        r = RDMs(d0.copy(), rdm_descriptors=dict(base, rescalingWeights=w0.copy()))
+        return r, 'rescalingWeights', d0, w0
+    raise ValueError(source)
+
+
+def _sel_apply(stack, op, by, arg):
+    """-> list of (result stack, row numbers the reference model expects)"""
+    idx = list(range(stack.n_rdm))
+    desc = idx if by == 'index' else list(SEL_GROUPS)
+    if op == 'none':
+        return [(stack, idx)]
+    if op in ('subset', 'subsample'):
+        return [(getattr(stack, op)(by, arg), R.select_rows(op, desc, arg))]
+    if op == 'getitem':
+        return [(stack[arg], R.select_rows('getitem', idx, arg))]
+    if op == 'getitem-ndarray':
+        return [(stack[np.array(arg)], R.select_rows('getitem', idx, arg))]
+    if op == 'iterate':
+        return [(one, [j]) for j, one in enumerate(stack)]
+    if '+' in op:
+        first, second = op.split('+')
+        (mid, rows1), = _sel_apply(stack, first, by, arg[0])
+        # the second step addresses the RDMs of the intermediate stack: by position for [] and, for the
+        # descriptor forms, by the 'index' value the intermediate stack reports for them
+        if second == 'getitem':
+            rows2 = R.select_rows('getitem', None, arg[1])
+            return [(mid[arg[1]], [rows1[j] for j in rows2])]
+        mid_desc = [int(v) for v in mid.rdm_descriptors['index']]
+        rows2 = R.select_rows(second, mid_desc, arg[1])
+        return [(getattr(mid, second)(by, arg[1]), [rows1[j] for j in rows2])]
+    raise ValueError(op)
+
+
+def _case_meansel(case, ctx):
+    """stack with gaps + per-entry weights in a 2-D rdm descriptor -> select RDMs -> mean(weights=name):
+    (a) the selected dissimilarity rows, (b) the descriptor carries ONE ROW PER SELECTED RDM equal to the
+    source row, (c) the mean equals the per-entry weighted NaN-aware mean of the selected rows with the
+    selected weight rows"""
+    masks, source, op = case['masks'], case['source'], case['op']
+    cls = 'per-rdm-1d-descriptor' if source == '1d' else '2-D-descriptor(%s)' % source.split('-')[0]
+    opc = op.replace('-ndarray', '')
+    tag = 'RDMs.mean|weights=descriptor-name,%s,after-%s' % (cls, opc)
+    with ctx.guard(tag, case):
+        stack, name, D0, W0 = _sel_stack(ctx, masks, source)
+        ctx.case(case, nontrivial=bool(np.isnan(D0).any()))
+        wobj = stack.rdm_descriptors[name]
+        with _watch(ctx, case, 'select(%s)|%s' % (opc, cls), rdms=stack,
+                    descriptor=wobj if isinstance(wobj, np.ndarray) else None):
+            results = _sel_apply(stack, op, case.get('by'), case.get('arg'))
+            for sub, rows in results:
+                Dsel = D0[rows]
+                if sub.dissimilarities.shape != Dsel.shape or maxreldev(sub.dissimilarities, Dsel) > 0:
+                    ctx.fail('select(%s)|%s|dissimilarity-rows-differ' % (opc, cls), case,
+                             'rows %s expected, got %s' % (rows, sub.dissimilarities.tolist()))
+                    continue
+                try:
+                    wsel = np.asarray(sub.rdm_descriptors[name], dtype=float)
+                except (KeyError, TypeError, ValueError):
+                    wsel = None
+                Wexp = W0[rows]
+                if wsel is None or wsel.shape != Wexp.shape or maxreldev(wsel, Wexp) > 0:
+                    ctx.fail('select(%s)|%s|descriptor-rows-not-carried-along' % (opc, cls), case,
+                             'descriptor %r after selecting rows %s: %s, expected %s'
+                             % (name, rows, _short_any(sub.rdm_descriptors.get(name)), Wexp.tolist()))
+                got = sub.mean(name).dissimilarities
+                _judge_mean(ctx, dict(case, rows=rows), tag, got, Dsel, Wexp.tolist())
+        ctx.outcome((opc, len(results)))
 
 
 def _partial_objects(ctx, case, proportional):
